@@ -487,6 +487,12 @@ pub fn vary_transport(rng: &mut Rng, case: &mut Case) {
             };
         }
     }
+    // an eighth of the cases talk in lock-step while another thread of the process serves another
+    // connection in the middle of this one (behind the handshake or between two of the commands)
+    if r.chance(1, 8) {
+        case.arrival = Arrival::Pipelined(1);
+        case.interloper_at = Some((2 + r.below(case.cmds.len() as u64 + 1), r.next()));
+    }
     // every eighth case travels over a TLS upgrade (its own handshake; not under Miri: native crypto)
     let tls_one_in = if THOROUGH.load(std::sync::atomic::Ordering::Relaxed) { 100 } else { 8 };
     case.over_tls = !cfg!(miri) && r.chance(1, tls_one_in) && case.tls.is_none() && case.fault.err_at.is_none() && case.fault.eof_after.is_none();
